@@ -15,8 +15,16 @@ QReq(e) == [name |-> e.name, parent |-> e.parent, isParent |-> e.isParent, lent 
 
 \* e.obs : quota name -> [fig |-> reported figures, pods |-> pod id -> isAssigned]
 ExpectedObs == [q \in DOMAIN quota |-> [fig |-> Figures(q), pods |-> [p \in PodsOf(q) |-> pod[p].assigned]]]
-ObsEq(o, x) == /\ DOMAIN o = DOMAIN x
+\* the root group's totals (not reported by the summaries; read in-package when the harness can): the sums over the
+\* top-level groups
+TopLevel == {q \in DOMAIN quota : quota[q].parent = Root}
+RootFig == [used      |-> [d \in Dims |-> SumOver(TopLevel, LAMBDA q : Used(q, d))],
+            request   |-> [d \in Dims |-> SumOver(TopLevel, LAMBDA q : Limited(q, d))],
+            npUsed    |-> [d \in Dims |-> SumOver(TopLevel, LAMBDA q : NPUsed(q, d))],
+            npRequest |-> [d \in Dims |-> SumOver(TopLevel, LAMBDA q : NPRequest(q, d))]]
+ObsEq(o, x) == /\ (DOMAIN o) \ {Root} = DOMAIN x
                /\ \A q \in DOMAIN x : o[q].fig = x[q].fig /\ FEq(o[q].pods, x[q].pods)
+               /\ (Root \in DOMAIN o => o[Root].root = RootFig')
 ObsOK(e) == IF CheckFigures THEN Expect(ObsEq(e.obs, ExpectedObs'), ExpectedObs') ELSE TRUE
 
 \* one (sub-)operation as a state transformer; OK(...) = the history is one the plugin can deliver
